@@ -1,7 +1,7 @@
 CONSTANTS
   Reqs = {1, 2, 3}
-  Keys = {1, 2}
-  KeyOf <- KeyOfSplit
+  Keys = {1}
+  KeyOf <- KeyOfSame
   Internal = {}
   Probe = {1}
   MaxGen = 3
@@ -14,9 +14,9 @@ CONSTANTS
   Urgent = FALSE
   DupWrite = FALSE
   WriterGuard = TRUE
-  Defensive = FALSE
+  Defensive = TRUE
   EnvOn = TRUE
-  Bug = "none"
+  Bug = "regroupTombstone"
 SPECIFICATION Spec
 INVARIANTS TypeOK AtMostOneReply ExactlyOneWhenFinished OneLeaderPerGeneration FollowersNeverDone
   TimedOutGenerationIsTombstone FailureIsPrivate InternalSkipsJoin RegroupBound Quiescent 
